@@ -83,7 +83,7 @@ func (ex *Exec) footprintEnd(label, site string) {
 				continue
 			}
 			ex.stats.Violated++
-			ex.report(Report{Kind: "assert", Label: label + ": write to object not owned by the call: " + s, Site: site, Status: "violated", Model: model})
+			ex.report(Report{Kind: "footprint", Label: label + ": write to object not owned by the call: " + s, Site: site, Status: "violated", Model: model})
 		}
 	}
 }
